@@ -4,7 +4,11 @@ Cases are random nestings of KDSubset / KDConcatDataset / KDWrapper (and subclas
 over root datasets whose item `x` is the sample identity id*1000+pos.  The real stack
 is built and queried; the Coq model (coq/C02/Model.v) and spec (Spec.v) are evaluated
 on the same stack; an independent Python oracle flattens the nesting with plain list
-operations and states the property on what the real objects returned."""
+operations and states the property on what the real objects returned.  Every case also
+performs a HISTORY of bulk and per-sample accesses on the objects of the stack (its parts
+and extra stacks built over the same part objects included) and then re-queries every
+object: accessors must be pure (identity and content snapshots of the containers the
+roots keep and of every object an accessor handed out)."""
 import itertools
 import json
 import os
@@ -13,7 +17,7 @@ from .common import C, Nat, Opt, Raw, Rec, Str, coq
 
 ID = "C02"
 COQ_FILES = ["C02/Model.v", "C02/Spec.v", "C02/AttrModel.v", "C02/AttrSpec.v", "C02/Check.v", "C02/Proofs.v",
-             "C02/AttrProofs.v", "C02/Property.v"]
+             "C02/AttrProofs.v", "C02/Hist.v", "C02/Heap.v", "C02/Property.v"]
 COQ_PRELUDE = ("From Coq Require Import ZArith List Bool String.\nImport ListNotations.\n"
                "From KD Require Import C02.Model C02.Spec C02.AttrModel C02.AttrSpec C02.Check.\nOpen Scope Z_scope.\n")
 COQ_CHECK = "check"
@@ -34,6 +38,14 @@ TRUSTED = [
     "harness/c02.py: stack builder (dynamic subclasses carrying the environments, token objects naming the definition "
     "that answered), root dataset returning id*1000+pos, observation canonicalisation",
     "all raised exceptions are one error value (IndexError, ValueError, ZeroDivisionError, AssertionError)",
+    "access histories: the model is stateless (Model.run_hist: every step answered by getall / util_getall / slen / "
+    "resolve of the stack it addresses); that the REAL objects behave statelessly is checked on the real heap by this "
+    "harness -- identity + content snapshots of every container a root keeps, content snapshots of every object an "
+    "accessor returned (compared again at the end), every node and extra stack re-queried twice after the history",
+    "coq/C02/Heap.v (getall on a heap of list objects: allocation, in-place +=, aliasing of kept containers) is proved "
+    "equal in value to Model.getall and to write to no pre-existing object; its allocation / aliasing structure itself "
+    "is hand-written from KDConcatDataset._call_getall / KDSubset._call_getall and not compared with the "
+    "implementation object by object (caching wrappers are outside it)",
 ]
 ASSUMPTIONS = [
     "valid stacks: subset entries address existing items of the layer below (negative entries allowed), concats "
@@ -46,6 +58,11 @@ ASSUMPTIONS = [
     "over a root) and, through concats, along the first parts (what the code documents); getdim_<kind> is answered by the "
     "first KDDataset-family layer with ITS getshape_<kind>: a getshape_<kind> defined on a KDSubset subclass above it is "
     "not seen by getdim_<kind> (no kappadata class does that; observed, mirrored by the model, not claimed as a defect)",
+    "accessors are pure: after any history of getall_x / utils.getall / len / getitem_x calls on the stack, its parts "
+    "and other stacks over the same parts, every object answers as its own index map says, no container kept by a root "
+    "dataset has changed (same object, same content) and no object handed out by an accessor has changed since it was "
+    "returned; roots may hand out the container they keep (list / ndarray / tensor) or a fresh one, wrappers may cache "
+    "the bulk result they hand out",
     "ModeWrapper on top is constructed with mode 'index' (its own item logic is property C01); its dispose() forwards "
     "(repaired by fixes/C02_mode_wrapper_dispose.patch)",
 ]
@@ -53,7 +70,11 @@ RULE = ("directed cases (index containers list/tuple/range/ndarray/tensor x inde
         "entries through 5 layers, empty stacks, shadowed attribute environments) + random nestings depth 1-6 over 1-4 "
         "roots of size 0-12: subset index lists with repeats, negative entries, permutations / rotations / fixed end "
         "points, concats of 1-4 parts incl. empty parts, balanced concats at the top or under a subset, fixed and "
-        "per-case wrapper classes (a class may occur twice), getall providers list/ndarray/tensor/absent, random attribute "
+        "per-case wrapper classes (a class may occur twice), getall providers list/ndarray/tensor/absent -- fresh per call "
+        "or the INTERNALLY KEPT container (return self.x) --, 20% of the wrappers caching the bulk result they hand out, "
+        "0-2 extra stacks (concat / subset / wrapper) built over nodes of the main stack (often sharing a first part), a "
+        "history of 0-9 accesses (getall / utils.getall / getitem / len, 35% of the bulk calls repeated) on random nodes / "
+        "extras, then every object re-queried twice (getall, len, all items); random attribute "
         "environments on every node (methods / properties / raising properties / class attributes / instance attributes, "
         "getshape_/getdim_ pairs, names shadowed at several layers), fused_operations / requires_propagate_ctx / collators "
         "overrides, ModeWrapper on top in 30%, all valid k plus a few invalid; "
@@ -283,7 +304,7 @@ def o_getall_claimed(t):
     def part_is_list(p):
         while p["t"] == "wrap":
             p = p["s"]
-        return p["t"] != "root" or p["pk"] == "list"
+        return p["t"] != "root" or p["pk"] in ("list", "ilist")
 
     def ok(t):
         if t["t"] == "root":
@@ -292,6 +313,124 @@ def o_getall_claimed(t):
             return all(ok(p) and part_is_list(p) for p in t["parts"])
         return ok(t["s"])
     return ok(t)
+
+
+# ---------------------------------------------------------------------------
+# access histories on the objects of one heap
+# ---------------------------------------------------------------------------
+def h_targets(case):
+    """what the steps of case["acc"] may address: {("n", uid): node of the annotated tree (not the ModeWrapper),
+    ("e", i): the i-th extra stack of case["extra"] with its {"t": "ref", "uid": u} leaves replaced by the nodes they
+    share with the main stack}; entries with dangling references are left out"""
+    top = annotate(case)
+    nodes = {n["uid"]: n for n in o_preorder(top) if n["t"] != "mode"}
+    out = {("n", u): n for u, n in nodes.items()}
+
+    def subst(e):
+        if e["t"] == "ref":
+            return nodes.get(e["uid"])
+        if e["t"] == "cat":
+            parts = [subst(q) for q in e["parts"]]
+            return None if any(q is None for q in parts) or not parts else {"t": "cat", "bal": False, "parts": parts}
+        inner = subst(e["s"])
+        if inner is None:
+            return None
+        if e["t"] == "sub":
+            return {"t": "sub", "tag": 0, "idxs": list(e["idxs"]), "ic": "list", "s": inner}
+        return {"t": "wrap", "tag": 2, "s": inner}
+    for i, e in enumerate(case.get("extra", [])):
+        t = subst(e)
+        if t is not None:
+            out[("e", i)] = t
+    return out
+
+
+def h_order(case):
+    """the objects re-checked after the history: the extras, then every node of the main stack, outermost first"""
+    tg = h_targets(case)
+    return sorted([k for k in tg if k[0] == "e"]) + sorted([k for k in tg if k[0] == "n"], key=lambda k: k[1])
+
+
+def o_expect(t, op, k=None):
+    """what a step on the stack t must return, from the index map alone; None = nothing claimed"""
+    d = o_den(t)
+    if d is None:
+        return None
+    no_provider = t_has(t, lambda n: n["t"] == "root" and n["pk"] == "none")
+    balanced = t_has(t, lambda n: n["t"] == "cat" and n["bal"])
+    has_all = not no_provider and not balanced
+    if op == "len":
+        return ["len", len(d[1])] if d[0] == "fin" else None
+    if op == "item":
+        v = o_at(d, k)
+        return None if v is None else ["item", v]
+    if d[0] != "fin":
+        return None
+    if op == "getall":
+        return ["all", d[1]] if has_all and o_getall_claimed(t) else None
+    return ["all", d[1]] if (not has_all or o_getall_claimed(t)) else None
+
+
+def o_step(t, a, r):
+    """None, or why the observed result r of step a on the stack t is wrong"""
+    exp = o_expect(t, a["op"], a.get("k"))
+    if a["op"] in ("getall", "util"):
+        if r[0] == "ok" and o_den(t) is not None and o_den(t)[0] == "fin" and o_getall_claimed(t) and r[2] != o_den(t)[1]:
+            return f"returned {r[2]}, the index map / the per-sample accessor gives {o_den(t)[1]}"
+        if exp is not None and (r[0] != "ok" or r[2] != exp[1]):
+            return f"returned {r}, the index map / the per-sample accessor gives {exp[1]}"
+        return None
+    if exp is not None and r != exp[1]:
+        return f"returned {r}, the index map gives {exp[1]}"
+    return None
+
+
+def o_history(case, obs):
+    """accessors are pure: every step of the history returns what the index map says (whatever was called before, on
+    this or on any other stack sharing objects with it -- so getall is idempotent), afterwards EVERY object still
+    answers len / getall / getitem as its own index map says, no container kept by a root dataset was touched, and no
+    object handed out by an accessor was changed by a later call"""
+    h = obs.get("h")
+    if h is None:
+        return None
+    tg = h_targets(case)
+    for t_, (a, r) in enumerate(zip(case.get("acc", []), h["steps"])):
+        key = tuple(a["on"])
+        if key not in tg or r == ["skip"]:
+            continue
+        msg = o_step(tg[key], a, r)
+        if msg:
+            before = [b["op"] + "@" + "".join(map(str, b["on"])) for b in case["acc"][:t_]]
+            return (f"history step #{t_} {a['op']}{'(' + str(a['k']) + ')' if a['op'] == 'item' else ''} on "
+                    f"{_tname(a['on'])} = {t_shape(tg[key])} {msg} (steps before it: {before})")
+    for pno, pas in enumerate(h["after"]):
+        for key, rec in zip(h_order(case), pas):
+            t = tg[key]
+            if rec["getall"] == ["skip"]:
+                continue
+            for op, r in (("len", rec["len"]), ("getall", rec["getall"])):
+                msg = o_step(t, {"op": op}, r)
+                if msg:
+                    return (f"after the history (re-check pass {pno + 1}): {op} on {_tname(key)} = {t_shape(t)} {msg} "
+                            f"(every object must still answer as its own index map says after the accesses before)")
+            for k, v in enumerate(rec["items"]):
+                msg = o_step(t, {"op": "item", "k": k}, v)
+                if msg:
+                    return (f"after the history (re-check pass {pno + 1}): getitem_x({k}) on {_tname(key)} = {t_shape(t)} "
+                            f"{msg} (every object must still answer as its own index map says after the accesses before)")
+    for uid, same, before, after in h["roots"]:
+        if not same or before != after:
+            return (f"the container kept by root node {uid} was {'replaced' if not same else 'mutated'} by the accessor "
+                    f"calls: {before} -> {after} (accessors must not write to what a dataset keeps)")
+    for step, at_return, now in h["returned"]:
+        if at_return != now:
+            return (f"the object returned by history step #{step} ({case['acc'][step]['op']} on "
+                    f"{_tname(case['acc'][step]['on'])}) was changed by a later accessor call: {at_return} -> {now}")
+    return None
+
+
+def _tname(on):
+    return f"node {on[1]}" if on[0] == "n" else f"extra stack {on[1]}"
 
 
 def oracle(case, obs):
@@ -309,7 +448,8 @@ def oracle(case, obs):
         if msg:
             return msg
     if d is None:
-        return None
+        # (the sub-stacks addressed by the history may be valid all the same)
+        return o_history(case, obs) if obs["ctor"] else None
     if not obs["ctor"]:
         return "a valid stack could not be constructed: " + str(obs.get("ctor_err"))
     if d[0] == "fin":
@@ -340,6 +480,9 @@ def oracle(case, obs):
         for nm in ("util", "util_list", "util_numpy", "util_tensor"):
             if obs[nm][0] != "ok" or obs[nm][2] != d[1]:
                 return f"utils.{nm.replace('util', 'getall').replace('getall_', 'getall_as_')}(stack,'x') = {obs[nm]} but the index map gives {d[1]}"
+    msg = o_history(case, obs)
+    if msg:
+        return msg
     if sorted(obs["dispose"]) != sorted(o_roots(t)) or obs["dispose"] != o_roots(t):
         return f"dispose() reached roots {obs['dispose']}, the stack contains roots {o_roots(t)}"
     ch = o_chain(t)
@@ -526,6 +669,27 @@ def _classes():
         def getall_x(self):
             return torch.tensor(self.x, dtype=torch.long)
 
+    # the ordinary way to write getall_*: hand out the container the dataset keeps (`return self.targets`), no copy
+    class RootIList(Root):
+        def getall_x(self):
+            return self.x
+
+    class RootINp(Root):
+        def __init__(self, *a, **kw):
+            super().__init__(*a, **kw)
+            self._all = np.array(self.x, dtype=np.int64)
+
+        def getall_x(self):
+            return self._all
+
+    class RootITorch(Root):
+        def __init__(self, *a, **kw):
+            super().__init__(*a, **kw)
+            self._all = torch.tensor(self.x, dtype=torch.long)
+
+        def getall_x(self):
+            return self._all
+
     class SubA(KDSubset):
         pass
 
@@ -535,7 +699,8 @@ def _classes():
     class WrapB(KDWrapper):
         pass
 
-    _CLASSES.update(root={"none": Root, "list": RootList, "np": RootNp, "torch": RootTorch},
+    _CLASSES.update(root={"none": Root, "list": RootList, "np": RootNp, "torch": RootTorch,
+                          "ilist": RootIList, "inp": RootINp, "itorch": RootITorch},
                     tag={0: KDSubset, 1: SubA, 2: KDWrapper, 3: WrapA, 4: WrapB, MW_TAG: ModeWrapper},
                     cat=KDConcatDataset, np=np, torch=torch, KDWrapper=KDWrapper, KDSubset=KDSubset,
                     ModeWrapper=ModeWrapper)
@@ -589,6 +754,15 @@ def build(case, t, env):
         o = _layer_class(case, t, env)(build(case, t["s"], env))
         uid = t["uid"]
         o.__dict__["_worker_init_fn"] = lambda rank, **kw: env["wlog"].append(uid)
+        if t.get("ga") == "cache" and hasattr(o.dataset, "getall_x"):
+            # a wrapper that keeps the bulk result it computed once and hands out that very object on every call
+            # (KDRandomClassWrapper.getall_class style)
+            def cached_getall(o=o):
+                if "_ga_cache" not in o.__dict__:
+                    import copy
+                    o.__dict__["_ga_cache"] = copy.copy(o.dataset.getall_x())
+                return o.__dict__["_ga_cache"]
+            o.__dict__["getall_x"] = cached_getall
     elif k == "mode":
         o = K["ModeWrapper"](build(case, t["s"], env), mode="index")
     else:
@@ -671,6 +845,77 @@ def _query(top, name):
     return _decode(v)
 
 
+def _build_extra(e, objs):
+    K = _classes()
+    if e["t"] == "ref":
+        return objs[e["uid"]]
+    if e["t"] == "cat":
+        return K["cat"]([_build_extra(q, objs) for q in e["parts"]], balanced_sampling=False)
+    if e["t"] == "sub":
+        return K["tag"][0](_build_extra(e["s"], objs), list(e["idxs"]))
+    return K["tag"][2](_build_extra(e["s"], objs))
+
+
+def _history(case, top, env, bulk):
+    """runs case["acc"] on the real objects (the nodes of the stack and the extra stacks built over them), then
+    re-queries every object twice; identity and content snapshots of the containers the roots keep and of every
+    object an accessor handed out"""
+    from kappadata.utils.getall_as_tensor import getall
+    tg = h_targets(case)
+    objs = {}
+    for key in tg:
+        try:
+            objs[key] = env["objs"][key[1]] if key[0] == "n" else _build_extra(case["extra"][key[1]], env["objs"])
+        except EXPECTED_ERRORS:
+            pass
+    roots = [(u, env["objs"][u]) for (kind, u), n in sorted(tg.items()) if kind == "n" and n["t"] == "root"]
+
+    def kept(o):
+        return [o.x] + ([o._all] if hasattr(o, "_all") else [])
+    before = [(u, kept(o), [_ints(c) for c in kept(o)]) for u, o in roots]
+    returned = []
+
+    def query(obj, op, k=None, step=None):
+        if op == "len":
+            r = _call(lambda: len(obj))
+            return None if isinstance(r, tuple) else int(r)
+        if op == "item":
+            r = _call(lambda: obj.getitem_x(k))
+            return None if isinstance(r, tuple) else int(r)
+        if op == "getall" and not hasattr(obj, "getall_x"):
+            return ["missing", None, None]
+        keep = []
+
+        def f():
+            v = obj.getall_x() if op == "getall" else getall(obj, "x")
+            keep.append(v)
+            return v
+        r = bulk(f)
+        if keep and step is not None and r[0] == "ok":
+            returned.append((step, keep[0], list(r[2])))
+        return r
+    steps = []
+    for t_, a in enumerate(case.get("acc", [])):
+        obj = objs.get(tuple(a["on"]))
+        steps.append(["skip"] if obj is None else query(obj, a["op"], a.get("k"), t_))
+    after = []
+    for _ in range(2):
+        pas = []
+        for key in h_order(case):
+            obj = objs.get(key)
+            if obj is None:
+                pas.append({"len": None, "getall": ["skip"], "items": []})
+                continue
+            n = query(obj, "len")
+            pas.append({"len": n, "getall": query(obj, "getall"),
+                        "items": [query(obj, "item", k) for k in range(min(n or 0, 30))]})
+        after.append(pas)
+    return {"steps": steps, "after": after,
+            "roots": [[u, all(a is b for a, b in zip(cs, kept(o))), snap, [_ints(c) for c in kept(o)]]
+                      for (u, cs, snap), (_, o) in zip(before, roots)],
+            "returned": [[st, snap, _ints(v)] for st, v, snap in returned]}
+
+
 def all_tags(case):
     return sorted(set(range(5)) | {10 + i for i in range(len(case.get("classes", [])))} | ({MW_TAG} if case.get("mw") else set()))
 
@@ -712,6 +957,7 @@ def run_impl(case):
     obs["util_list"] = bulk(lambda: getall_as_list(s, "x"))
     obs["util_numpy"] = bulk(lambda: getall_as_numpy(s, "x"))
     obs["util_tensor"] = bulk(lambda: getall_as_tensor(s, "x"))
+    obs["h"] = _history(case, top, env, bulk)
     obs["root"] = s.root_dataset.id
     obs["attr"] = [s.marker, s.getshape_x()[0], s.getdim_x()]
     ws = s.all_wrappers
@@ -768,7 +1014,7 @@ def run_impl(case):
 def coq_stack(t):
     k = t["t"]
     if k == "root":
-        return C("Root", t["id"], Nat(t["n"]), Raw({"none": "PNone", "list": "PList"}.get(t["pk"], "PArray")))
+        return C("Root", t["id"], Nat(t["n"]), Raw({"none": "PNone", "list": "PList", "ilist": "PList"}.get(t["pk"], "PArray")))
     if k == "sub":
         return C("Sub", t["tag"], list(t["idxs"]), coq_stack(t["s"]))
     if k == "wrap":
@@ -857,7 +1103,26 @@ def coq_case(case, obs):
                  a_with=list(a["with"]), a_root=a["root"], a_wrappers=list(a["wrappers"]),
                  a_haswrap=[(u, bool(b)) for u, b in a["haswrap"]],
                  a_oftype1=[(tg, _wot(r)) for tg, r in a["oftype1"]])
-    return coq((st, list(case["ks"]), o, coq_astack(case, top), ao))
+    hist = []
+    if obs["ctor"] and obs.get("h"):
+        tg = h_targets(case)
+        for a, r in zip(case.get("acc", []), obs["h"]["steps"]):
+            if tuple(a["on"]) in tg and r != ["skip"]:
+                hist.append(_hstep(tg[tuple(a["on"])], a["op"], a.get("k"), r))
+        for key, rec in zip(h_order(case), obs["h"]["after"][1]):
+            if rec["getall"] != ["skip"]:
+                hist.append(_hstep(tg[key], "len", None, rec["len"]))
+                hist.append(_hstep(tg[key], "getall", None, rec["getall"]))
+    return coq((st, list(case["ks"]), o, coq_astack(case, top), ao, hist))
+
+
+def _hstep(t, op, k, r):
+    cs = coq_stack(t)
+    if op == "len":
+        return (cs, Raw("HLen"), C("HRLen", Opt(r)))
+    if op == "item":
+        return (cs, C("HItem", k), C("HRItem", Opt(None if r is None else _sample(r))))
+    return (cs, Raw("HGetall" if op == "getall" else "HUtil"), C("HRAll", _gres(r)))
 
 
 # ---------------------------------------------------------------------------
@@ -867,7 +1132,7 @@ def gen_tree(rng, depth, ids, allow_bal, big=False):
     maxn = 12 if not big else 25
     if depth <= 0 or rng.random() < 0.12:
         n = rng.choice([0, 1, 1, 2, 3, 3, 4, 5, 7, rng.randint(0, maxn)])
-        return {"t": "root", "id": next(ids), "n": n, "pk": rng.choice(["list", "list", "list", "np", "torch", "none"])}
+        return {"t": "root", "id": next(ids), "n": n, "pk": rng.choice(["list", "list", "ilist", "ilist", "ilist", "np", "torch", "inp", "itorch", "none"])}
     r = rng.random()
     if r < 0.40:
         under_bal = True
@@ -908,7 +1173,10 @@ def gen_tree(rng, depth, ids, allow_bal, big=False):
             ic = "list"
         return {"t": "sub", "tag": rng.choice(SUB_TAGS), "idxs": idxs, "ic": ic, "s": s}
     if r < 0.65:
-        return {"t": "wrap", "tag": rng.choice(WRAP_TAGS), "s": gen_tree(rng, depth - 1, ids, allow_bal, big)}
+        w = {"t": "wrap", "tag": rng.choice(WRAP_TAGS), "s": gen_tree(rng, depth - 1, ids, allow_bal, big)}
+        if rng.random() < 0.2:
+            w["ga"] = "cache"
+        return w
     bal = allow_bal and rng.random() < 0.5
     k = rng.choice([1, 2, 2, 3, 3, 4])
     inner_bal = rng.random() < 0.04     # not constructible: a part without len
@@ -997,6 +1265,71 @@ def decorate(rng, case):
     return case
 
 
+def gen_history(rng, case):
+    """extra stacks sharing objects with the main one, and a history of bulk / per-sample accesses on all of them:
+    getall twice on the same stack, getall on a stack and then on a sub-stack / on another stack over the same parts,
+    utils.getall (fast or slow path) in between, getitem / len interleaved"""
+    top = annotate(case)
+    nodes = [n for n in o_preorder(top) if n["t"] != "mode"]
+    fin = [n for n in nodes if t_len(n) is not None and o_den(n) is not None]
+    extra = []
+    for _ in range(rng.choice([0, 0, 1, 1, 2])):
+        if not fin:
+            break
+        kind = rng.choice(["cat", "cat", "cat", "sub", "wrap"])
+        if kind == "cat":
+            # often: the first part of an existing concat / the whole main stack as FIRST part of a new one
+            first = [q["parts"][0] for q in nodes if q["t"] == "cat" and q["parts"] and q["parts"][0] in fin]
+            p0 = rng.choice(first) if first and rng.random() < 0.5 else rng.choice(fin)
+            parts = [p0] + [rng.choice(fin) for _ in range(rng.choice([0, 1, 1, 2]))]
+            extra.append({"t": "cat", "parts": [{"t": "ref", "uid": q["uid"]} for q in parts]})
+        elif kind == "sub":
+            q = rng.choice(fin)
+            n = t_len(q)
+            idxs = [rng.randint(-n, n - 1) for _ in range(rng.choice([0, 1, 2, 3, 5]))] if n > 0 else []
+            extra.append({"t": "sub", "idxs": idxs, "s": {"t": "ref", "uid": q["uid"]}})
+        else:
+            extra.append({"t": "wrap", "s": {"t": "ref", "uid": rng.choice(fin)["uid"]}})
+    case["extra"] = extra
+    targets = [["n", nodes[0]["uid"]]] * 3 + [["n", n["uid"]] for n in nodes] + [["e", i] for i in range(len(extra))] * 2
+    acc = []
+    tg = None
+    for _ in range(rng.choice([0, 1, 2, 3, 4, 5, 6, 8])):
+        on = list(rng.choice(targets))
+        r = rng.random()
+        if r < 0.45:
+            a = {"op": "getall", "on": on}
+        elif r < 0.6:
+            a = {"op": "util", "on": on}
+        elif r < 0.85:
+            if tg is None:
+                tg = h_targets(case)
+            n = t_len(tg[tuple(on)])
+            a = {"op": "item", "on": on, "k": rng.randint(-n, n - 1) if n else rng.randint(0, 7)}
+        else:
+            a = {"op": "len", "on": on}
+        acc.append(a)
+        if a["op"] in ("getall", "util") and rng.random() < 0.35:
+            acc.append(dict(a, op=rng.choice(["getall", "getall", "util"])))     # the same stack asked again
+    case["acc"] = acc
+    return case
+
+
+def sanitize(case):
+    """drops history steps / extra stacks whose references no longer exist (after the stack was shrunk)"""
+    tg = h_targets(case)
+    extra = case.get("extra", [])
+    keep = [i for i in range(len(extra)) if ("e", i) in tg]
+    ren = {i: j for j, i in enumerate(keep)}
+    acc = []
+    for a in case.get("acc", []):
+        on = tuple(a["on"])
+        if on not in tg:
+            continue
+        acc.append(dict(a, on=["e", ren[on[1]]]) if on[0] == "e" else a)
+    return dict(case, extra=[extra[i] for i in keep], acc=acc)
+
+
 def mw_possible(case):
     """ModeWrapper's constructor asserts that no fused op is declared twice"""
     path = o_path(annotate(dict(case, mw=False)))
@@ -1020,7 +1353,7 @@ def gen_case(rng, big=False):
         ks = list(range(0, 2 * total + 3)) + [-1, -2, -total, -total - 1]
     else:
         ks = list(range(-n, n)) + [n, -n - 1, n + 3]
-    return decorate(rng, {"stack": t, "ks": ks})
+    return gen_history(rng, decorate(rng, {"stack": t, "ks": ks}))
 
 
 def _root(id, n, pk="list", **kw):
@@ -1094,6 +1427,33 @@ def directed_cases():
         add(_sub([0, 1], _cat([_root(6, 1, coll=[3]), ch])), classes=classes, mw=True)
     add(_wrap(r, tag=10), classes=[{"base": "wrap", "cls": {"getdim_u": "method"}, "fo": [], "req": False}])
     add(_root(0, 2, cls={"getdim_u": "method"}))
+    # access histories: roots / wrappers that hand out the container they keep, the same stack asked twice, a stack and
+    # then its parts, other stacks built over the same parts, utils.getall and getitem in between
+    def G(*on):
+        return {"op": "getall", "on": list(on)}
+
+    def U(*on):
+        return {"op": "util", "on": list(on)}
+
+    def It(k, *on):
+        return {"op": "item", "on": list(on), "k": k}
+
+    def ref(u):
+        return {"t": "ref", "uid": u}
+    for pk0 in ("ilist", "list", "inp", "itorch"):
+        for pk1 in ("ilist", "list"):
+            two = _cat([_root(0, 3, pk=pk0), _root(1, 2, pk=pk1)])
+            add(two, acc=[G("n", 0), G("n", 0), G("n", 1), It(0, "n", 1), G("n", 2)])
+            add(two, acc=[G("n", 0), U("n", 0), It(-1, "n", 0), {"op": "len", "on": ["n", 0]}, U("n", 1)])
+            add(two, extra=[{"t": "cat", "parts": [ref(1), ref(2), ref(1)]}, {"t": "sub", "idxs": [2, 0], "s": ref(1)}],
+                acc=[G("e", 0), G("n", 0), G("e", 0), G("e", 1), G("n", 1)])
+            add(_sub([4, 0, 1], two), acc=[G("n", 0), G("n", 0), G("n", 2)])
+            add(_cat([_wrap(_wrap(_root(0, 2, pk=pk0)), ga="cache"), _root(1, 1, pk=pk1), _root(2, 0, pk=pk1)]),
+                acc=[G("n", 0), G("n", 1), G("n", 0), G("n", 2), G("n", 3)])
+            add(_cat([_cat([_root(0, 2, pk=pk0), _root(1, 1, pk=pk1)]), _sub([1, 1], _root(2, 2, pk=pk0))]),
+                acc=[G("n", 0), G("n", 1), G("n", 0), U("n", 5), G("n", 2)], mw=(pk0 == "list"))
+            add(_sub([2, 2, 0], _wrap(_root(0, 3, pk=pk0), ga="cache")), extra=[{"t": "wrap", "s": ref(2)}],
+                acc=[G("n", 0), G("n", 1), G("e", 0), G("n", 0), It(1, "n", 0)])
     return out
 
 
@@ -1175,7 +1535,7 @@ def shrink(case):
 
     def variants(t):
         k = t["t"]
-        for key in ("cls", "inst", "fo", "req", "coll"):
+        for key in ("cls", "inst", "fo", "req", "coll", "ga"):
             if t.get(key):
                 yield {kk: vv for kk, vv in t.items() if kk != key}
         if k in ("sub", "wrap") and t["tag"] >= 10:
@@ -1206,15 +1566,21 @@ def shrink(case):
             yield dict(t, s=v)
 
     if case.get("mw"):
-        yield dict(case, mw=False)
+        yield sanitize(dict(case, mw=False))
     if case.get("kty"):
         yield dict(case, kty=None)
     if len(case.get("queries", [])) > 1:
         for q in case["queries"]:
             yield dict(case, queries=[q])
+    if case.get("acc"):
+        yield dict(case, acc=[])
+        for i in range(len(case["acc"])):
+            yield dict(case, acc=case["acc"][:i] + case["acc"][i + 1:])
+    if case.get("extra"):
+        yield sanitize(dict(case, extra=[], acc=[a for a in case.get("acc", []) if a["on"][0] != "e"]))
     for v in variants(t):
         n = t_len(v)
         ks = [k for k in case["ks"] if n is None or -n <= k < n]
-        yield dict(case, stack=v, ks=ks)
+        yield sanitize(dict(case, stack=v, ks=ks))
     for i in range(len(case["ks"])):
         yield dict(case, ks=case["ks"][:i] + case["ks"][i + 1:])
